@@ -63,6 +63,20 @@ def run_shard(spec, rng, ctx):
         case = C.draw_partition_case(rng, alg=alg, classes=CLASSES)
         judge(case, ctx)
         i += 1
+        if i % 4 == 1:
+            # zero-valued items inside the branching searches (a zero changes no sum, so bookkeeping slips with zeros are invisible to every sum-based test):
+            # 3-5 bins, 5-8 items over 0..20 with at least one zero
+            alg = rng.choice(["ckk", "ckk", "ckk", "snp", "cg", "kk", "rnp"])
+            k = rng.choice([3, 3, 4, 5])
+            vals = [rng.randint(0, rng.choice([10, 20])) for _ in range(rng.randint(5, 8))]
+            for _ in range(rng.choice([1, 1, 2])):
+                vals[rng.randrange(len(vals))] = 0
+            case = {"kind": "partition", "alg": alg, "k": k, "values": vals, "cls": "zeros_in_searches", "pres": rng.choice(["list", "list", "dict_str", "names_int"]),
+                    "pres_seed": rng.randrange(1 << 30)}
+            if alg == "cg":
+                case["objective"] = [rng.choice(C.OBJ5[:3]), None]
+                case["cg_mask"] = rng.randrange(16)
+            judge(case, ctx)
         if i % 4 == 3:
             # snp / rnp / ckk with >= 3 bins and 7-10 items: these run many nested two-way searches on ONE bins-manager, so state that lives in the manager
             # (or is keyed by object identity) between searches shows only here
